@@ -81,7 +81,8 @@
 //!    range path needs batch_size / right_rows > 10 and a left side longer than that ratio, which
 //!    batch sizes {1,2,3,5,8192} × ≤ 10 rows never produced. Generator widened (batch sizes 12 and 25,
 //!    nested-loop left side up to 2·max+2 rows) and re-probed: see the line below.
-//!  * M5 re-probe: RESULT_M5
+//!  * M5 re-probe (same mutation, widened generator, VF_C05_OP=NestedLoop VF_CASES=860): DETECTED after
+//!    215 cases (seed 0: NestedLoop/Left, 14 rows for 13) and after 86 cases (seed 1: NestedLoop/Full).
 //!
 //! `VF_C05_OP` / `VF_CASES` are probe aids only (default off; the evidence run never sets them).
 use crate::data::*;
